@@ -1037,4 +1037,124 @@ example : ¬ PlainItems witnessF3 := by
   · cases h
   · have := h .str (by simp [witnessF3]); simp [Item.isBytes] at this
 
+/-! ### reading "to the end" ends by `StopIteration`, not by the model's fuel -/
+
+def YieldShrinks (s : It) (r : NextRes × It) : Prop := ∀ x, r.1 = .yield x → r.2.rest.length < s.rest.length
+
+theorem closeInput_noyield (fc : CloseK) (s t : It) : YieldShrinks t (closeInput fc s) := by
+  intro x hx; cases fc <;> cases hx
+
+theorem nextList_shrinks (s : It) : YieldShrinks s (nextList s) := by
+  unfold nextList
+  split
+  · intro x hx; cases hx
+  · intro x hx; cases hx
+  · rename_i i r _ hr; intro x _; simp [hr]
+
+theorem nextGen_shrinks (fin : Bool) (s : It) : YieldShrinks s (nextGen fin s) := by
+  unfold nextGen
+  split
+  · intro x hx; cases hx
+  · split
+    · intro x hx; simp only at hx; split at hx <;> cases hx
+    · intro x hx; cases hx
+    · rename_i i r _ hr; intro x _; simp [hr]
+
+theorem nextObj_shrinks (s : It) : YieldShrinks s (nextObj s) := by
+  unfold nextObj
+  split
+  · split <;> (intro x hx; cases hx)
+  · intro x hx; cases hx
+  · rename_i i r _ hr; intro x _; simp [hr]
+
+theorem nextFile_shrinks (fc : CloseK) (s : It) : YieldShrinks s (nextFile fc s) := by
+  unfold nextFile
+  split
+  · split
+    · intro x hx; cases hx
+    · exact closeInput_noyield fc s s
+  · intro x hx; cases hx
+  · exact closeInput_noyield fc _ s
+  · rename_i i r _ _ hr; intro x _; simp [hr]
+
+theorem next_shrinks (s : It) : YieldShrinks s s.next := by
+  unfold It.next
+  split
+  · exact nextList_shrinks s
+  · exact nextGen_shrinks _ s
+  · exact nextObj_shrinks s.bump
+  · exact nextFile_shrinks _ s.bump
+
+/-- an upper bound for the number of further `next()` calls that do not end in `StopIteration` -/
+def bound (s : Srv) : Nat :=
+  match s.trapper with
+  | some true => 1
+  | some false => 0
+  | none => (if s.pendingPage then 1 else 0) + (match s.it with | some i => i.rest.length + 1 | none => 0)
+
+theorem srvNext_bound (chk : Bool) (s : Srv) : (srvNext chk s).2 = true ∨ bound (srvNext chk s).1 < bound s := by
+  unfold srvNext
+  split
+  · rename_i ht; right; simp [bound, ht]
+  · left; rfl
+  · rename_i ht
+    split
+    · rename_i hp
+      right
+      simp only [bound, ht, hp, if_true]
+      simp
+    · rename_i hp
+      split
+      · left; rfl
+      · rename_i i hi
+        have hs := next_shrinks i
+        simp only
+        split
+        · rename_i x i' heq
+          have e : i' = i.next.2 := by rw [heq]
+          have ex : i.next.1 = .yield x := by rw [heq]
+          subst e
+          have hlt := hs x ex
+          split
+          · right; simp only [bound, ht, hp, hi]; simp; omega
+          · right; simp only [bound, ht, hi]; omega
+        · left; rfl
+        · right; simp only [bound, ht, hi]; omega
+
+theorem srvReadN_stable (chk : Bool) : ∀ (n : Nat) (s : Srv), bound s + 1 ≤ n →
+    srvReadN chk (n + 1) s = srvReadN chk n s := by
+  intro n
+  induction n with
+  | zero => intro s h; omega
+  | succ n ih =>
+    intro s h
+    rw [srvReadN.eq_def chk (n + 1 + 1), srvReadN.eq_def chk (n + 1)]
+    simp only
+    rcases srvNext_bound chk s with hstop | hlt
+    · simp [hstop]
+    · cases hst : (srvNext chk s).2
+      · simp only [Bool.false_eq_true, if_false]
+        exact ih _ (by omega)
+      · simp
+
+theorem fuelOf_enough (s : Srv) : bound s + 1 ≤ fuelOf s := by
+  unfold bound fuelOf
+  cases s.trapper with
+  | some b => cases b <;> simp <;> omega
+  | none =>
+    cases s.it with
+    | none => simp; split <;> omega
+    | some i => simp; split <;> omega
+
+/-- **reading to the end (`reads = None`) is independent of the model's fuel**: any larger amount gives the same
+    conversation — the iteration ends by `StopIteration` -/
+theorem C01B_read_fuel_irrelevant (chk : Bool) (s : Srv) : ∀ d, srvReadN chk (fuelOf s + d) s = srvRead chk none s := by
+  intro d
+  unfold srvRead
+  induction d with
+  | zero => rfl
+  | succ d ih =>
+    rw [← ih]
+    exact srvReadN_stable chk (fuelOf s + d) s (by have := fuelOf_enough s; omega)
+
 end CpProofs.C01Boundary
